@@ -140,9 +140,17 @@ func replayOne(ti int, tr mbt.Trace, rep *mbt.Report) {
 		rep.Fail(mbt.Failure{Trace: ti, TraceID: tr.ID, Step: si, Action: fmt.Sprintf("%s%s", st.A, canon(st.Args)), Kind: kind,
 			Property: prop, Key: key, Detail: detail, Want: want, Got: got})
 	}
+	preCrash := map[int]map[string]interface{}{}
+	tornCrash := map[int]bool{}
+	acceptedR0 := map[string]bool{} // "node/height": accepted a round-0 proposal while running
+	staleDiffers := func(i int, h int) bool {
+		return live != nil && h-1 < len(live) && h-1 < len(stale) && stale[h-1] != live[h-1][0]
+	}
 	for si, st := range tr.Steps {
 		rep.Steps++
 		var aerr error
+		pseudoFail, pseudoDetail := "", ""
+		var pseudoWant, pseudoGot interface{}
 		p, stack := mbt.Catch(func() {
 			switch st.A {
 			case "Internal":
@@ -170,12 +178,60 @@ func replayOne(ti int, tr mbt.Trace, rep *mbt.Report) {
 				ti := st.Args[1].(map[string]interface{})
 				aerr = s.Timeout(mbt.Int(st.Args[0]), int64(mbt.Int(ti["h"])), int64(mbt.Int(ti["r"])), mbt.Int(ti["st"]))
 			case "Crash":
+				preCrash[mbt.Int(st.Args[0])] = mbt.Canon(s.SpecState(mbt.Int(st.Args[0]))).(map[string]interface{})
+				tornCrash[mbt.Int(st.Args[0])] = false
 				s.Crash(mbt.Int(st.Args[0]))
+			case "CrashTorn":
+				tornCrash[mbt.Int(st.Args[0])] = true
+				// the cut position inside the last WAL line is derived from the position in the behaviour
+				aerr = s.CrashTorn(mbt.Int(st.Args[0]), (si*37+ti*11)%97)
 			case "Restart":
 				aerr = s.Restart(mbt.Int(st.Args[0]))
 				if aerr != nil {
 					s.Notes = append(s.Notes, "restart: "+aerr.Error())
 					aerr = nil
+				}
+			case "Drain":
+				// pseudo step appended by the engine: fair schedule on the real nodes must reach the height
+				rounds, derr := s.Drain(int64(mbt.Int(st.Args[0])), mbt.Int(st.Args[1]))
+				rep.Count("drains")
+				rep.Counters["drain_rounds"] += rounds
+				if derr != nil {
+					pseudoFail = "NoProgress"
+					pseudoDetail = derr.Error()
+					// known cause: a restarted node computes another round-0 proposer than the running nodes
+					for _, i := range s.HonestIdx() {
+						g := s.SpecState(i)
+						h, r := int(g["h"].(int64)), int(g["r"].(int64))
+						if s.Nodes[i].Inc > 0 && r == 0 && live != nil && h-1 < len(live) && int(g["proposer"].(int64)) != live[h-1][0] {
+							pseudoFail = "NoProgress:stale-proposer-after-restart"
+						}
+					}
+				}
+			case "RealStartProbe":
+				// pseudo step: real OnStart + receiveRoutine on a clone of the node's directory vs the stepped restart
+				i := mbt.Int(st.Args[0])
+				real, sync, perr := s.RealStartProbe(i)
+				rep.Count("real_start_probes")
+				if perr != nil {
+					pseudoFail = "RealStart"
+					pseudoDetail = "real Start() on a copy of the node directory failed: " + perr.Error()
+				} else {
+					cr, cs := mbt.Canon(real).(map[string]interface{}), mbt.Canon(sync).(map[string]interface{})
+					var diff []string
+					for _, k := range cmpKeys {
+						if k == "armed" || k == "timer" || k == "tocks" {
+							continue
+						}
+						if canon(cr[k]) != canon(cs[k]) {
+							diff = append(diff, k)
+						}
+					}
+					if len(diff) > 0 {
+						pseudoFail = "RealStartDiffers"
+						pseudoDetail = fmt.Sprintf("node %d restarted by the real OnStart/receiveRoutine differs from the stepped restart on %v", i, diff)
+						pseudoWant, pseudoGot = cs, cr
+					}
 				}
 			default:
 				aerr = fmt.Errorf("unknown action %s", st.A)
@@ -189,6 +245,17 @@ func replayOne(ti int, tr mbt.Trace, rep *mbt.Report) {
 			fail(si, st, "mismatch", true, "cannot-follow:"+st.A, "the implementation cannot take the step the specification takes: "+aerr.Error(), nil, nil)
 			return
 		}
+		if pseudoFail != "" {
+			fail(si, st, "property", true, pseudoFail, pseudoDetail, pseudoWant, pseudoGot)
+			return
+		}
+		if st.A == "Drain" || st.A == "RealStartProbe" {
+			if msg := s.CheckAgreement(); msg != "" {
+				fail(si, st, "property", true, "Agreement", msg, nil, nil)
+				return
+			}
+			continue
+		}
 		// compare every honest node
 		for _, i := range s.HonestIdx() {
 			want := nodeOf(st.Post, i)
@@ -198,6 +265,15 @@ func replayOne(ti int, tr mbt.Trace, rep *mbt.Report) {
 			}
 			got := mbt.Canon(s.SpecState(i)).(map[string]interface{})
 			rep.Checks++
+			if bad, _ := want["bad"].(string); bad != "ok" {
+				// the specification stopped following this node (round bound of the model reached)
+				if bad != "EXHAUSTED" {
+					fail(si, st, "error", false, "spec-bad:"+bad, "the specification flags "+bad, nil, nil)
+				}
+				rep.Count("exhausted")
+				rep.Traces++
+				return
+			}
 			if up, _ := want["up"].(bool); !up {
 				if g, _ := got["up"].(bool); g {
 					fail(si, st, "mismatch", true, "state:up", "node should be down", false, true)
@@ -252,6 +328,48 @@ func replayOne(ti int, tr mbt.Trace, rep *mbt.Report) {
 				return
 			}
 		}
+		// track acceptance of round-0 proposals (explains the known stale-proposer finding)
+		for _, i := range s.HonestIdx() {
+			if n := s.Nodes[i]; n.Up {
+				g := s.SpecState(i)
+				if pr, ok := g["prop"].(map[string]interface{}); ok && g["r"].(int64) == 0 {
+					if v, ok := pr["v"].([]interface{}); ok && len(v) > 0 && v[0] != "none" {
+						acceptedR0[fmt.Sprintf("%d/%d", i, g["h"].(int64))] = true
+					}
+				}
+			}
+		}
+		// C07 oracle on the real node: a restart restores what the node had when its last logged input was processed
+		if st.A == "Restart" && oracleRestore {
+			i := mbt.Int(st.Args[0])
+			if pre, ok := preCrash[i]; ok && !tornCrash[i] {
+				got := mbt.Canon(s.SpecState(i)).(map[string]interface{})
+				rep.Count("restart_restore_checks")
+				strict := []string{"h", "pvc", "pcc", "cr", "dec"}
+				full := []string{"r", "st", "prop", "pb", "pp", "lr", "lb"}
+				for _, k := range strict {
+					if canon(pre[k]) != canon(got[k]) {
+						fail(si, st, "property", true, "ReplayRestores:"+k, fmt.Sprintf("node %d: %s after restart differs from what it was when the last logged input had been processed", i, k), pre[k], got[k])
+						return
+					}
+				}
+				for _, k := range full {
+					if canon(pre[k]) != canon(got[k]) {
+						h := mbt.Int(got["h"])
+						key := "ReplayRestores:" + k
+						if acceptedR0[fmt.Sprintf("%d/%d", i, h)] && staleDiffers(i, h) {
+							key = "ReplayRestores:stale-proposer"
+						}
+						fail(si, st, "property", true, key, fmt.Sprintf("node %d: %s after restart differs from what it was when the last logged input had been processed", i, k), pre[k], got[k])
+						if key != "ReplayRestores:stale-proposer" {
+							return
+						}
+						break
+					}
+				}
+			}
+			delete(preCrash, i)
+		}
 		// properties evaluated directly on the real block stores
 		if msg := s.CheckAgreement(); msg != "" {
 			fail(si, st, "property", true, "Agreement", msg, nil, nil)
@@ -260,6 +378,8 @@ func replayOne(ti int, tr mbt.Trace, rep *mbt.Report) {
 	}
 	rep.Traces++
 }
+
+var oracleRestore = os.Getenv("VERIF_ORACLE_RESTORE") == "1"
 
 func main() {
 	if len(os.Args) < 2 {
